@@ -27,6 +27,7 @@ import QV.Proofs.WriterMsgRefine
 import QV.Proofs.WriterJustified
 import QV.Proofs.WriterAbsStep
 import QV.Proofs.WriterWalk
+import QV.Proofs.WriterSegment
 
 namespace QV.C12
 open QV QV.Writer QV.ServerSafety
@@ -580,7 +581,7 @@ theorem C12_abstract_state_follows (ss : Session) (op : Op) (a a' : Spec.Message
   `clear_rrs`. -/
 theorem C12_walk_reaches_final_check_partial (macFn : Tsig → List UInt8 → List UInt8) (hmac : MacLenOK macFn)
     (buf : Bytes) (limit : Nat) (s0 : State) (hnew : Writer.new buf limit = .ok s0) (hlim : limit ≤ 65535)
-    (mode : CMode) (ops : List Op) (ht : ∀ op ∈ ops, op.Typed)
+    (mode : CMode) (ops : List Op) (ht : ∀ op ∈ ops, op.Typed) (hb : ∀ op ∈ ops, ApiBounds op)
     (hr : Respects { w := { s0 with mode := mode } } ops) (hv : ∀ v, Op.setLimit v ∈ ops → v ≤ 65535)
     (hno : ∀ op ∈ ops, op ≠ .clearRrs ∧ op ≠ .getters ∧ NonEmptySet op) (mac' : Option (List UInt8)) :
     ∃ m mac d aF, finish (run { w := { s0 with mode := mode } } ops).1.w macFn = .ok (m, mac) ∧
@@ -594,7 +595,51 @@ theorem C12_walk_reaches_final_check_partial (macFn : Tsig → List UInt8 → Li
           (ops.map Driver.toSpecOp)
           ((run { w := { s0 with mode := mode } } ops).2.map Driver.statusStr ++ ["ok"]) [m] (some d) mac' =
         Spec.Message.checkSegment false aF d m.size mac' :=
-  walk_from_new macFn hmac buf limit s0 hnew hlim mode ops ht hr hv hno mac'
+  walk_from_new macFn hmac buf limit s0 hnew hlim mode ops ht hb hr hv hno mac'
+
+/-! ### the clauses of the final check, in the specification's own vocabulary
+
+  `C12_final_check_clauses_partial` (same restriction as the walk: no `clear_rrs`, no `getters`): the
+  walk equals `checkSegment false aF d m.size mac'`, and for this `aF` and `d` the clauses of
+  `checkSegment` hold as the executable specification writes them: the header equals the decoded
+  header with Z = 0; the question count; `listEq` of `nameEq`/type/class over the questions zipped
+  with their item modes; `recsEq` (that is `recordEq`: `nameEq` on the owner, type, class, TTL,
+  `fieldsEq` on the expanded RDATA, each with the mode of the item) for the answer and authority
+  sections and for the additional section up to the OPT record the specification expects
+  (`expectedRecords`), the modes being `itemModes` followed by the mode at `finish`; the size is
+  within the limit of the abstract state; and what follows in the additional section is exactly the
+  TSIG record (if configured), read back as the record given. Not in this theorem: the Bool form of
+  the TSIG check (`tsigRecordOk`, which needs the MAC to have exactly the algorithm's output size),
+  and `auditPointers`. -/
+theorem C12_final_check_clauses_partial (macFn : Tsig → List UInt8 → List UInt8) (hmac : MacLenOK macFn)
+    (buf : Bytes) (limit : Nat) (s0 : State) (hnew : Writer.new buf limit = .ok s0) (hlim : limit ≤ 65535)
+    (mode : CMode) (ops : List Op) (ht : ∀ op ∈ ops, op.Typed) (hb : ∀ op ∈ ops, ApiBounds op)
+    (hr : Respects { w := { s0 with mode := mode } } ops) (hv : ∀ v, Op.setLimit v ∈ ops → v ≤ 65535)
+    (hno : ∀ op ∈ ops, op ≠ .clearRrs ∧ op ≠ .getters ∧ NonEmptySet op) (mac' : Option (List UInt8)) :
+    ∃ m mac d aF, finish (run { w := { s0 with mode := mode } } ops).1.w macFn = .ok (m, mac) ∧
+      Spec.Message.specDecodeMsg m = some d ∧
+      Spec.Message.walk false
+          { mode := Driver.toSpecMode mode, buflen := buf.size, limit := min limit buf.size }
+          (ops.map Driver.toSpecOp)
+          ((run { w := { s0 with mode := mode } } ops).2.map Driver.statusStr ++ ["ok"]) [m] (some d) mac' =
+        Spec.Message.checkSegment false aF d m.size mac' ∧
+      aF.hdr = d.msg.header ∧ aF.hdr.z = 0 ∧ m.size ≤ aF.limit ∧
+      (let modes := aF.itemModes.reverse
+       let qs := aF.questions.reverse
+       let nq := qs.length
+       let ex := Spec.Message.expectedRecords aF
+       let rmodes := modes.drop nq
+       d.msg.questions.length = nq ∧
+       Spec.Message.listEq (fun (p : Spec.Message.Mode × Spec.Message.Question) (q : Spec.Message.Question) =>
+           Spec.Message.nameEq p.1 p.2.qname q.qname && p.2.qtype == q.qtype && p.2.qclass == q.qclass)
+         ((modes.take nq).zip qs) d.msg.questions = true ∧
+       Spec.Message.recsEq rmodes ex.1 d.msg.answers = true ∧
+       Spec.Message.recsEq (rmodes.drop ex.1.length) ex.2.1 d.msg.authorities = true ∧
+       ∃ ds tl, d.msg.additionals = ds ++ tl ∧
+         Spec.Message.recsEq (rmodes.drop (ex.1.length + ex.2.1.length) ++ [aF.mode, aF.mode]) ex.2.2 ds = true ∧
+         All2 (RecordIs ((run { w := { s0 with mode := mode } } ops).1.w.mode ≠ .standard))
+           (tsigRecs (run { w := { s0 with mode := mode } } ops).1.w.tsig mac) tl) :=
+  segment_from_new macFn hmac buf limit s0 hnew hlim mode ops ht hb hr hv hno mac'
 
 /-! non-vacuity: a `CasePreserving` session that respects the contract, whose calls all succeed, and
     that emits two pointers (owner = QNAME; the CNAME target shares a suffix with it) — all
